@@ -344,7 +344,8 @@ def create_continuous_elements_index(net, start=0, add_df_to_reindex=None, store
     :rtype: pandapipesNet
     """
     add_df_to_reindex = set() if add_df_to_reindex is None else set(add_df_to_reindex)
-    elements = pp_elements(include_res_elements=True, net=net)
+    # the result tables are reindexed together with their element tables
+    elements = pp_elements(include_res_elements=False, net=net)
     elements |= add_df_to_reindex
 
     # run reindex_elements() for all elements
